@@ -102,6 +102,10 @@ def instances(tier, rng):
     keys = sorted(inst)
     for key in rng.sample(keys, 40 if tier == "quick" else 400):
         out.append(key + (3,))
+    # the mixed expression/tensor overloads: unequal tags beyond one kernel block are what a swapped tag pair needs
+    mixed = [k for k in keys if k[4] != k[5] and k[1] * k[3] >= 12]
+    for i, key in enumerate(rng.sample(mixed, min(len(mixed), 48 if tier == "quick" else 480))):
+        out.append(key + (4 + i % 2,))
     return sorted(set(out))
 
 
